@@ -256,7 +256,7 @@ int x_send(XSock *x, const void *buf, size_t len) {
     x->inflight_taken = 0;
     G->logf("xcm_send(%s, %zu) = %d%s%s", x->label.c_str(), len, rc, rc < 0 ? " " : "", rc < 0 ? strerror(e) : "");
     cur()->ops_since_poll++;
-    if (!(rc < 0 && e == EAGAIN)) G->kmut++;   // API-level progress (or a terminal report) counts as a state change
+    if (!(rc < 0 && (e == EAGAIN || e == EINTR))) G->kmut++;   // API-level progress (or a terminal report) counts as a state change
     if (rc >= 0) {
         if (x->terminal() && judged(x) && len > 0)
             G->violation("C06.send_after_terminal", "%s: xcm_send succeeded after %s", x->label.c_str(), x->saw_eof ? "a receive had returned 0" : strerror(x->term_errno));
@@ -323,7 +323,7 @@ int x_receive(XSock *x, void *buf, size_t cap) {
     G->logf("xcm_receive(%s, cap %zu) = %d%s%s", x->label.c_str(), cap, rc, rc < 0 ? " " : "", rc < 0 ? strerror(e) : "");
     check_discovery(x, "xcm_receive", rc > 0);
     cur()->ops_since_poll++;
-    if (!(rc < 0 && e == EAGAIN)) G->kmut++;
+    if (!(rc < 0 && (e == EAGAIN || e == EINTR))) G->kmut++;
     x->last_recv_eagain = rc < 0 && e == EAGAIN;
     if (x->last_recv_eagain) x->kmut_at_last_recv_eagain = G->kmut;
     if (rc > 0) {
@@ -441,7 +441,7 @@ int x_finish(XSock *x) {
     G->logf("xcm_finish(%s) = %d%s%s", x->label.c_str(), rc, rc < 0 ? " " : "", rc < 0 ? strerror(e) : "");
     check_discovery(x, "xcm_finish", rc == 0);
     cur()->ops_since_poll++;
-    if (rc < 0 && e != EAGAIN) G->kmut++;
+    if (rc < 0 && e != EAGAIN && e != EINTR) G->kmut++;
     if (rc == 0) x->finish_ok_since_send = true;
     if (rc < 0 && !x->is_server && e == EPIPE) x->saw_epipe = true;
     if (rc < 0 && !x->is_server && e != EPIPE) note_terminal(x, "xcm_finish", e);
